@@ -136,13 +136,30 @@ def maxEnd : List Blk → Nat
   | [] => 0
   | b :: bs => max b.2 (maxEnd bs)
 
-/-- blocks of the chunk-relative location; `none` = the window cuts the interval (not modelled here) -/
-def chunkBlocks (par : Par) (bs : List Blk) : Option (List Blk) :=
+/-- insertion into a list ordered by the constructor's key (blocks with equal keys are equal, so stability is moot) -/
+def insertBlk (st : Strand) (x : Blk) : List Blk → List Blk
+  | [] => [x]
+  | y :: ys => if blkLe st x y then x :: y :: ys else y :: insertBlk st x ys
+
+/-- `CompoundInterval._sort_starts_ends` (Python's `sorted` by the strand's key; an insertion sort here — structurally
+    recursive, so that statements about concrete intervals evaluate) -/
+def sortLoc (st : Strand) : List Blk → List Blk
+  | [] => []
+  | x :: xs => insertBlk st x (sortLoc st xs)
+
+/-- blocks of the chunk-relative location; `none` = the window cuts the interval (not modelled here).
+    On a chunk parent the location is built by `parent_to_relative_location`, which keeps only the blocks that
+    OVERLAP the window: a zero-length block overlaps nothing and is dropped (it stays in `_genomic_starts/_ends`, so
+    the chromosome-mode record still lists it).  Without a chunk parent (`reset_parent`) all blocks are kept.
+    The blocks of a location come in the constructor's order (`sortLoc`: by (start, end) on plus, by (start, −end)
+    otherwise) — the identity on ascending non-empty blocks, visible only with zero-length blocks. -/
+def chunkBlocks (st : Strand) (par : Par) (bs : List Blk) : Option (List Blk) :=
   match par with
   | .chunk cs ce =>
-    if bs.all (fun b => decide (cs ≤ b.1) && decide (b.2 ≤ ce)) then some (bs.map fun b => (b.1 - cs, b.2 - cs))
+    if bs.all (fun b => decide (cs ≤ b.1) && decide (b.2 ≤ ce)) then
+      some (sortLoc st ((bs.filter fun b => decide (b.1 < b.2)).map fun b => (b.1 - cs, b.2 - cs)))
     else none
-  | _ => some bs
+  | _ => some (sortLoc st bs)
 
 /-- `getattr(self, name, name)` -/
 def selName (x : Iv) : NameSel → Option (List Char)
@@ -175,13 +192,13 @@ def txCore (repaired : Bool) (x : Iv) (score : Nat) (rgb : Nat × Nat × Nat) (n
       some ⟨x.seqName, selfStart, selfEnd, selName x name, score, x.strand, thick.1, thick.2, rgb,
             x.exons.length, sizes x.exons, startsRel selfStart x.exons⟩
     else
-      match chunkBlocks x.par x.exons with
+      match chunkBlocks x.strand x.par x.exons with
       | some (r0 :: rrest) =>
         let blocks := r0 :: rrest
         let thick : Option (Nat × Nat) :=
           match x.cds with
           | some (c0 :: crest) =>
-            match chunkBlocks x.par (c0 :: crest) with
+            match chunkBlocks x.strand x.par (c0 :: crest) with
             | some (q0 :: qrest) => some (q0.1, maxEnd (q0 :: qrest))   -- cds chunk-relative location .start/.end
             | _ => none
           | _ => some (0, 0)
@@ -202,7 +219,7 @@ def featCore (repaired : Bool) (x : Iv) (score : Nat) (rgb : Nat × Nat × Nat) 
       some ⟨x.seqName, e0.1, (lastOf e0 erest).2, selName x name, score, x.strand, 0, 0, rgb,
             x.exons.length, sizes x.exons, startsRel e0.1 x.exons⟩
     else
-      match chunkBlocks x.par x.exons with
+      match chunkBlocks x.strand x.par x.exons with
       | some (r0 :: rrest) =>
         some ⟨x.seqName, r0.1, maxEnd (r0 :: rrest), selName x name, score, x.strand, 0, 0, rgb,
               (r0 :: rrest).length, sizes (r0 :: rrest), startsRel (if repaired then r0.1 else e0.1) (r0 :: rrest)⟩
